@@ -1,6 +1,6 @@
 (* C01 — instances of the generic round trip, the Timestamp adapter, and the generated description table. *)
 From Coq Require Import ZArith NArith List Bool Lia ZifyBool ZifyNat.
-From FEC Require Import Generated.CodecConsts Models.CodecM Proofs.CodecP Generated.LayoutPy.
+From FEC Require Import Generated.CodecConsts Models.CodecM Proofs.CodecP Proofs.CodecTsRealP Generated.LayoutPy.
 Import ListNotations.
 Open Scope Z_scope.
 
@@ -226,6 +226,30 @@ Lemma Codec_ts_projection_partial : forall z, 0 <= z < 2 ^ 64 ->
 Proof.
   intros z R [S | [N S]]. apply Codec_ts_projection_sentinel; auto. apply Codec_ts_projection_integer_seconds; auto.
 Qed.
+
+(* THE PROJECTION LAW, IN FULL: sentinel stamps, whole seconds, and (Proofs/CodecTsRealP.v, over the reals with Flocq)
+   every stamp with 0 < ns < 10^9 *)
+Lemma Codec_ts_projection_holds : Codec_ts_projection_full.
+Proof.
+  intros z Hz D. unfold Codec_ts_dom in D.
+  destruct ((Codec_ts_sec z =? ts_invalid) || (Codec_ts_ns z =? ts_invalid)) eqn:S.
+  - apply Codec_ts_projection_sentinel; auto.
+  - cbn [orb] in D. apply andb_true_iff in D as [D1 D2].
+    assert (N0 : 0 <= Codec_ts_ns z). { unfold Codec_ts_ns. apply Z.div_pos; lia. }
+    destruct (Z.eq_dec (Codec_ts_ns z) 0) as [E | NE].
+    + apply Codec_ts_projection_integer_seconds; auto. lia.
+    + apply Codec_ts_projection_finite; auto; lia.
+Qed.
+
+(* hence, unconditionally: any layout, canonical inputs with stamps in the domain *)
+Lemma Codec_roundtrip_ts_full : forall d, Codec_wf d = true ->
+  forall b e n, Codec_bytes_ok b = true -> Codec_parse_dom d b = Some (e, n) ->
+  Codec_parse d b = Some (e, n) /\ Codec_roundtrip_at d b e n.
+Proof. exact (Codec_roundtrip_ts Codec_ts_projection_holds). Qed.
+Lemma Codec_table_roundtrip_ts_full : forall i d, In (i, d) py_descriptions ->
+  forall b e n, Codec_bytes_ok b = true -> Codec_parse_dom d b = Some (e, n) ->
+  Codec_parse d b = Some (e, n) /\ Codec_roundtrip_at d b e n.
+Proof. exact (Codec_table_roundtrip_ts Codec_ts_projection_holds). Qed.
 
 (* the code before the repair did not satisfy the law: (529378 s, 273878287 ns) came back as ...286 *)
 Lemma Codec_ts_legacy_refuted :
